@@ -7,10 +7,10 @@ RULE = ('C19 runs on spied, instrumented HsmWithQueues and ActiveObject charts: 
         'after every step the number of new full.trace records must be 1 iff the reference model says the event caused a transition '
         '(including self-transitions and guard-fired transitions after declines), 0 for hooks, declined-and-ignored and unknown events; '
         'the record must be (previous rest state, signal, new rest state); at the end the record list must equal the expected list cut '
-        'to the 500-record ring (long runs cross it); clear_trace() calls by the client in between restart the expected list. distinct_nontrivial = distinct (host, transitions, non-transitions) per run')
+        'to the 500-record ring (long runs cross it); clear_trace() calls by the client in between restart the expected list; a share of the active objects subscribe and / or publish BEFORE start_at, so that their first steps handle the SUBSCRIBE / PUBLISH meta event (no transition: no record). distinct_nontrivial = distinct (host, transitions, non-transitions) per run')
 CASES = {'quick': 2500, 'thorough': 150000}
 BUDGET = {'quick': 150, 'thorough': 300}
-REQUIRE = {'trace_transitions': 5000, 'trace_non_transitions': 5000, 'trace_ring_crossed': 1, 'clear_trace_calls': 100}
+REQUIRE = {'trace_transitions': 5000, 'trace_non_transitions': 5000, 'trace_ring_crossed': 1, 'clear_trace_calls': 100, 'subscribe_meta_steps': 80, 'publish_meta_steps': 50}
 ASSUME = ['steps stay below the 250-tuple per-step ring']
 
 
